@@ -61,7 +61,12 @@ ConvertKeepsType ==
         Convert(x, u, m).t = x.t /\ Convert(x, u, m).u = u
 
 (* ---- C03 ------------------------------------------------------------- *)
-Sums == {Add(x, y, m), Add(y, x, m), Add(Add(x, y, m), z, m), Add(y, z, m)}
+\* every term the laws mention has to stay inside the model's number range (the laws are about values, the
+\* range is an artefact of TLC's integers)
+Sums == {Add(x, y, m), Add(y, x, m), Add(Add(x, y, m), z, m), Add(y, z, m), Add(x, Add(y, z, m), m),
+         Sub(x, y, m), Neg(x, m), Neg(y, m), Add(x, Neg(x, m), m), Add(x, Neg(y, m), m),
+         MulNum(x, NumV(k), m), MulNum(y, NumV(k), m), MulNum(Add(x, y, m), NumV(k), m),
+         Add(MulNum(x, NumV(k), m), MulNum(y, NumV(k), m), m), SumQ(<<x, y, z>>, m)}
 AddLaws ==
     (Ready /\ Which = "add" /\ Lin(x.t) /\ NoOOR(Sums)) =>
         /\ Add(x, y, m).u = x.u /\ Add(x, y, m).t = x.t
